@@ -451,7 +451,9 @@ impl MerkleTree {
                     (
                         Some(DataHash {
                             index: block.index,
-                            nodes: p.nodes.expect("nodes need to be present"),
+                            nodes: p.nodes.ok_or_else(|| HypercoreError::InvalidOperation {
+                                context: "Requested block is not covered by the proof".to_string(),
+                            })?,
                         }),
                         None,
                     )
@@ -460,7 +462,9 @@ impl MerkleTree {
                         None,
                         Some(DataHash {
                             index: hash.index,
-                            nodes: p.nodes.expect("nodes need to be set"),
+                            nodes: p.nodes.ok_or_else(|| HypercoreError::InvalidOperation {
+                                context: "Requested hash is not covered by the proof".to_string(),
+                            })?,
                         }),
                     )
                 } else {
